@@ -156,8 +156,10 @@ def lower_bound(body, op, depth=0):
         v = k.get("v")
         return v if isinstance(v, int) and v >= 0 else 0
     pl = op_place(op)
-    if pl is None or pl["p"] or depth > 10:
+    if pl is None or depth > 10:
         return 0
+    if pl["p"]:
+        return _captured_lower_bound(body, op, depth)
     defs = body.defs().get(pl["l"], [])
     if len(defs) != 1:
         return 0
@@ -166,6 +168,8 @@ def lower_bound(body, op, depth=0):
         rv = d[3]["rv"]
         if rv["r"] in ("use", "cast"):
             return lower_bound(body, rv["o"], depth + 1)
+        if rv["r"] == "ref" and not rv["pl"]["p"]:
+            return lower_bound(body, {"c": rv["pl"]}, depth + 1)
         if rv["r"] == "bin" and rv["op"] in ("Add", "AddUnchecked", "AddWithOverflow"):
             return lower_bound(body, rv["a"], depth + 1) + lower_bound(body, rv["b"], depth + 1)
         return 0
@@ -177,6 +181,36 @@ def lower_bound(body, op, depth=0):
     if cs.name == "max":
         return max(lower_bound(body, cs.args[0], depth + 1), lower_bound(body, cs.args[1], depth + 1))
     return 0
+
+
+def _captured_lower_bound(body, op, depth):
+    """the operand reads a captured variable of a closure: bound it in the creating function (the
+    value computed once outside the closure is the same value inside it)"""
+    parent_key = body.raw.get("parent")
+    if parent_key is None:
+        return 0
+    rs = body.resolve(op)
+    if len(rs) != 1:
+        return 0
+    root, path = next(iter(rs))
+    fields = [x for x in path if x.startswith(".")]
+    if root != ("arg", 1) or len(fields) != 1 or any(x not in ("*", "&") and not x.startswith(".") for x in path):
+        return 0
+    parents = [b for b in body.facts.bodies.values() if b.key == parent_key or parent_key in b.raw.get("inlined", [])]
+    if len(parents) != 1:
+        return 0
+    cap = closure_captures(parents[0], body).get(fields[0][1:])
+    if cap is None:
+        return 0
+    loc, _, (i, j) = cap
+    if loc is not None:
+        # by-reference capture: only sound when the variable is assigned exactly once
+        if len(parents[0].defs().get(loc, [])) != 1 or loc in parents[0].mut_borrowed():
+            return 0
+        return lower_bound(parents[0], {"c": {"l": loc, "p": []}}, depth + 1)
+    st = parents[0].blocks[i]["st"][j]
+    names = [c["name"] for c in body.raw.get("captures", [])]
+    return lower_bound(parents[0], st["rv"]["fields"][names.index(fields[0][1:])], depth + 1)
 
 
 def import_results(ck, module, clause, func_substr, new_clause):
